@@ -1,8 +1,11 @@
 package main
 
 // specItem: an independent, hand-written description of how Go values map to RLP items (the "supported types" of the
-// property): used to tie the real typed ENCODERS to the Lean spec encoder (`enc <item>` lines), while typed DECODERS are
-// tied by round trip + canonicity on the real code.
+// property): used to tie the real typed ENCODERS to the Lean spec encoder (`enc <item>` lines) and, as the rendering of
+// decoded values, the real typed DECODERS to the Lean typed model (`tdec <tydesc> <hex>` lines).
+//
+// Modes: rawLeaf renders an rlp.RawValue as an opaque leaf `r<hex>` (its content need not be a valid item);
+// nilLeaf renders a nil pointer (other than *big.Int, which is the type `big` itself) as `n` (`tenc` lines).
 
 import (
 	"math/big"
@@ -26,13 +29,23 @@ func minBE(u uint64) []byte { return new(big.Int).SetUint64(u).Bytes() }
 
 func isByteKind(t reflect.Type) bool { return t.Kind() == reflect.Uint8 }
 
-func specItem(v reflect.Value) interface{} {
+type specMode struct{ rawLeaf, nilLeaf bool }
+
+type rawLeaf []byte
+type nilLeaf struct{}
+
+func specItem(v reflect.Value) interface{} { return specItemM(v, specMode{}) }
+
+func specItemM(v reflect.Value, m specMode) interface{} {
 	t := v.Type()
 	switch {
 	case t == bigType:
 		b := v.Addr().Interface().(*big.Int)
 		return b.Bytes()
 	case t == rawType:
+		if m.rawLeaf {
+			return rawLeaf(append([]byte{}, v.Bytes()...))
+		}
 		var it interface{}
 		if err := rlp.DecodeBytes(v.Bytes(), &it); err != nil {
 			panic(err)
@@ -41,9 +54,11 @@ func specItem(v reflect.Value) interface{} {
 	case t == txType:
 		tx := v.Addr().Interface().(*types.Transaction)
 		vv, r, s := tx.RawSignatureValues()
-		var to []byte
+		var to interface{} = []byte(nil)
 		if tx.To() != nil {
 			to = tx.To().Bytes()
+		} else if m.nilLeaf {
+			to = nilLeaf{}
 		}
 		return []interface{}{minBE(tx.Nonce()), tx.GasPrice().Bytes(), minBE(tx.Gas()), to, tx.Value().Bytes(), tx.Data(), vv.Bytes(), r.Bytes(), s.Bytes()}
 	case t == logType:
@@ -65,20 +80,20 @@ func specItem(v reflect.Value) interface{} {
 		}
 		logs := []interface{}{}
 		for _, l := range r.Logs {
-			logs = append(logs, specItem(reflect.ValueOf(l).Elem()))
+			logs = append(logs, specItemM(reflect.ValueOf(l).Elem(), m))
 		}
 		return []interface{}{st, minBE(r.CumulativeGasUsed), r.Bloom.Bytes(), logs}
 	case t == blkType:
 		b := v.Addr().Interface().(*types.Block)
 		txs := []interface{}{}
 		for _, tx := range b.Transactions() {
-			txs = append(txs, specItem(reflect.ValueOf(tx).Elem()))
+			txs = append(txs, specItemM(reflect.ValueOf(tx).Elem(), m))
 		}
 		uncles := []interface{}{}
 		for _, u := range b.Uncles() {
-			uncles = append(uncles, specItem(reflect.ValueOf(u).Elem()))
+			uncles = append(uncles, specItemM(reflect.ValueOf(u).Elem(), m))
 		}
-		return []interface{}{specItem(reflect.ValueOf(b.Header()).Elem()), txs, uncles}
+		return []interface{}{specItemM(reflect.ValueOf(b.Header()).Elem(), m), txs, uncles}
 	}
 	switch t.Kind() {
 	case reflect.Uint, reflect.Uint8, reflect.Uint16, reflect.Uint32, reflect.Uint64, reflect.Uintptr:
@@ -100,7 +115,7 @@ func specItem(v reflect.Value) interface{} {
 		}
 		xs := []interface{}{}
 		for i := 0; i < v.Len(); i++ {
-			xs = append(xs, specItem(v.Index(i)))
+			xs = append(xs, specItemM(v.Index(i), m))
 		}
 		return xs
 	case reflect.Struct:
@@ -116,11 +131,11 @@ func specItem(v reflect.Value) interface{} {
 			}
 			if strings.Contains(tag, "tail") {
 				for j := 0; j < v.Field(i).Len(); j++ {
-					xs = append(xs, specItem(v.Field(i).Index(j)))
+					xs = append(xs, specItemM(v.Field(i).Index(j), m))
 				}
 				continue
 			}
-			xs = append(xs, specItem(v.Field(i)))
+			xs = append(xs, specItemM(v.Field(i), m))
 		}
 		return xs
 	case reflect.Ptr:
@@ -129,20 +144,22 @@ func specItem(v reflect.Value) interface{} {
 			switch {
 			case et == bigType:
 				return []byte{}
+			case m.nilLeaf:
+				return nilLeaf{}
 			case et.Kind() == reflect.Array && isByteKind(et.Elem()):
 				return []byte{}
 			case et.Kind() == reflect.Struct || et.Kind() == reflect.Array:
 				return []interface{}{}
 			default:
-				return specItem(reflect.Zero(et))
+				return specItemM(reflect.Zero(et), m)
 			}
 		}
-		return specItem(v.Elem())
+		return specItemM(v.Elem(), m)
 	case reflect.Interface:
 		if v.IsNil() {
 			return []interface{}{}
 		}
-		return specItem(v.Elem())
+		return specItemM(v.Elem(), m)
 	}
 	panic("specItem: unsupported " + t.String())
 }
